@@ -43,8 +43,8 @@ func emitFromI64(a *wb.Asm, ty byte) {
 	}
 }
 
-func buildProgram(t Tree, start bool, rot int) *program {
-	p := &program{tree: t, start: start, sigs: t.sigs(start, rot), lvl: t.levels()}
+func buildProgram(t Tree, start bool, rot, shape int) *program {
+	p := &program{tree: t, start: start, sigs: t.sigs(start, rot, shape), lvl: t.levels()}
 	maxL := t.maxLevel()
 	for l := 0; l <= maxL; l++ {
 		m := &wb.Module{}
@@ -128,10 +128,17 @@ func buildProgram(t Tree, start bool, rot int) *program {
 			if !tailed {
 				switch t[i].Out {
 				case 'R':
-					for k, ty := range s.R {
-						a.LocalGet(acc).I64Const(int64(resultConst(i, k))).Op(0x7c)
-						emitFromI64(a, ty)
+					pushResults := func() {
+						for k, ty := range s.R {
+							a.LocalGet(acc).I64Const(int64(resultConst(i, k))).Op(0x7c)
+							emitFromI64(a, ty)
+						}
 					}
+					if shape > 0 {
+						emitShapedExit(m, a, shape, i, s, pushResults)
+						break
+					}
+					pushResults()
 					// every way of leaving a function (each is lowered separately by the compiler,
 					// and each needs its own after-listener call)
 					switch (i + rot) % 5 {
@@ -162,4 +169,85 @@ func buildProgram(t Tree, start bool, rot int) *program {
 		p.bins = append(p.bins, m.Encode())
 	}
 	return p
+}
+
+// blockOf opens a block/loop/if (op 0x02/0x03/0x04) whose type is ()->results.
+func blockOf(m *wb.Module, a *wb.Asm, op byte, results []byte) {
+	switch len(results) {
+	case 0:
+		a.Op(op).Op(wb.Void)
+	case 1:
+		a.Op(op).Op(results[0])
+	default:
+		a.Op(op).S(int64(m.Type(nil, results)))
+	}
+}
+
+// emitShapedExit emits the end of a returning function for body shape > 0 (see shapeCombo).
+func emitShapedExit(m *wb.Module, a *wb.Asm, shape, node int, s sig, pushResults func()) {
+	exit, surplus := shapeCombo(shape, node)
+	types := []byte{wb.I32, wb.I64, wb.F32, wb.F64}
+	pushSurplus := func(n int) {
+		for j := 0; j < n; j++ {
+			ty := types[(node+j)%4]
+			a.Const(ty, sentinelRaw(node, j, ty))
+		}
+	}
+	nest := uint32(0)
+	switch surplus {
+	case 1:
+		pushSurplus(1)
+	case 2:
+		pushSurplus(3)
+	case 3:
+		blockOf(m, a, 0x02, s.R)
+		nest++
+		pushSurplus(2)
+	case 4:
+		pushSurplus(1)
+		blockOf(m, a, 0x02, s.R)
+		nest++
+	}
+	switch exit {
+	case 0:
+		pushResults()
+		return // plain fall through, no surplus
+	case 1:
+		pushResults()
+		a.Return()
+	case 2:
+		pushResults()
+		a.Br(nest)
+	case 3:
+		pushResults()
+		a.I32Const(1).BrIf(nest).Unreachable()
+	case 4:
+		pushResults()
+		a.I32Const(1).BrTable([]uint32{nest, nest}, nest)
+	case 5:
+		pushResults()
+		a.I32Const(9).BrTable([]uint32{nest, nest}, nest)
+	case 6:
+		blockOf(m, a, 0x02, s.R)
+		pushResults()
+		a.Return().End()
+	case 7:
+		a.I32Const(1)
+		blockOf(m, a, 0x04, s.R)
+		blockOf(m, a, 0x03, s.R)
+		pushResults()
+		a.Return().End().Else().Unreachable().End()
+	case 8:
+		a.Block(wb.Void).Block(wb.Void)
+		pushResults()
+		a.Br(nest + 2).End().End()
+	}
+	if nest > 0 {
+		a.Unreachable() // the rest of the enclosing block is dead; keep it valid whatever is on the stack
+	}
+	for ; nest > 0; nest-- {
+		a.End()
+	}
+	// whatever is left on the stack (surplus and/or block results) is dead: keep the body valid
+	a.Unreachable()
 }
